@@ -21,7 +21,7 @@
    schedule) are schedules of micro-steps (last two theorems), so everything
    below applies to them. *)
 From RxVerif Require Import Base.Prelude Core.Trampoline Core.TrampolineFacts Core.TrampolineOrder
-  Core.TrampolineSeq Core.TrampolineTerm.
+  Core.TrampolineSeq Core.TrampolineTerm Core.TrampBracket Core.TrampNoRaise.
 
 (* One at a time, never nested: when an action of a trampoline starts, no other
    action of that trampoline is being executed (by any thread), ... *)
@@ -37,6 +37,27 @@ Theorem C30_one_at_a_time : forall c c0 hs sch k,
   (t_active (tramps (fst (crun c (start_config c0 hs) sch)) k) <= 1)%nat.
 Proof. exact one_at_a_time. Qed.
 Print Assumptions C30_one_at_a_time.
+
+(* The same on the log alone (no ghost counter): if two actions of one trampoline
+   start, the earlier one (x) has ended -- returned or raised -- before the later one (y)
+   starts.  Hence an action scheduled while another is running starts only after that
+   action returned.  All threads, schedules, both code versions. *)
+Theorem C30_start_end_bracket :
+  forall c c0 hs sch k l3 y ly thy dy cy dky ddy l2 x lx thx dx cx dkx ddx l1,
+  log (fst (crun c (start_config c0 hs) sch))
+    = l3 ++ EStart k y ly thy dy cy dky ddy :: l2 ++ EStart k x lx thx dx cx dkx ddx :: l1 ->
+  exists r, In (EEnd k x lx r) l2.
+Proof. exact start_end_bracket. Qed.
+Print Assumptions C30_start_end_bracket.
+
+(* ... and every end closes the action that is open: it is preceded by the start of the
+   same item with no start or end of that trampoline in between *)
+Theorem C30_end_closes_its_start : forall c c0 hs sch k l3 id l r l0,
+  log (fst (crun c (start_config c0 hs) sch)) = l3 ++ EEnd k id l r :: l0 ->
+  exists l2 th due clk dk d l1, l0 = l2 ++ EStart k id l th due clk dk d :: l1 /\
+    forall e, In e l2 -> match e with EStart k' _ _ _ _ _ _ _ | EEnd k' _ _ _ => k' <> k | _ => True end.
+Proof. exact end_closes_its_start. Qed.
+Print Assumptions C30_end_closes_its_start.
 
 (* Timed actions never run before their due time; the due time is the one the
    schedule call computed *)
@@ -123,6 +144,25 @@ Theorem C30_dropped_only_by_exception : forall c0 hs sch k ids exn,
   In (EDrop k ids exn) (log (fst (crun (Cfg false) (start_config c0 hs) sch))) -> exn = true.
 Proof. exact dropped_only_by_exception. Qed.
 Print Assumptions C30_dropped_only_by_exception.
+
+(* EVERY scheduled, non-cancelled action runs when nobody raises: in the code as it is
+   now, for any number of threads, any histories whose actions never raise ([noraise]:
+   hereditarily no CRaise) and any schedule, nothing is ever dropped; and once every
+   thread has returned each enqueued item was started, or was skipped -- and then its
+   disposable had been disposed (so an action that was scheduled and not cancelled ran) *)
+Theorem C30_no_drop_if_no_raise : forall c0 hs sch k ids exn,
+  Forall (fun h => forallb noraise h = true) hs ->
+  ~ In (EDrop k ids exn) (log (fst (crun (Cfg false) (start_config c0 hs) sch))).
+Proof. exact no_drop_if_no_raise. Qed.
+Print Assumptions C30_no_drop_if_no_raise.
+
+Theorem C30_all_started_if_no_raise : forall c0 hs sch k id,
+  Forall (fun h => forallb noraise h = true) hs ->
+  let cf := crun (Cfg false) (start_config c0 hs) sch in
+  finished (snd cf) -> enqueued k id (log (fst cf)) ->
+  started k id (log (fst cf)) \/ (skipped k id (log (fst cf)) /\ In (ECancel id) (log (fst cf))).
+Proof. exact all_started_if_no_raise. Qed.
+Print Assumptions C30_all_started_if_no_raise.
 
 (* "Eventually runs": on one thread every call returns -- the sequential run of ANY history ends
    within the fuel [run_history] gives it (a potential that every micro-step decreases: 16 per
@@ -255,3 +295,26 @@ Example C30_witness_two_threads :
     [ORun 0 0 0 0 0; OEnd 0; ORun 3 1 5 0 0; OEnd 3; ORun 1 0 5 0 0; OEnd 1; ORun 4 1 5 0 0; OEnd 4;
      ORun 2 1 5 0 0; OEnd 2].
 Proof. vm_compute. split; reflexivity. Qed.
+
+(* the premise of C30_start_end_bracket is satisfiable: in the run of [ex_h] three actions
+   of the shared trampoline start, each after the previous one ended (oldest first;
+   true = start, false = end, with the item id) *)
+Example C30_witness_bracket :
+  flat_map (fun e => match e with
+                     | EStart (KShared O) id _ _ _ _ _ _ => [(true, id)]
+                     | EEnd (KShared O) id _ _ => [(false, id)]
+                     | _ => [] end)
+           (rev (log (world_of (run_history (Cfg false) 0 ex_h))))
+  = [(true, 0%nat); (false, 0%nat); (true, 3%nat); (false, 3%nat); (true, 2%nat); (false, 2%nat)].
+Proof. vm_compute. reflexivity. Qed.
+
+(* the hypothesis of C30_all_started_if_no_raise holds of [ex_h]; in its run item 1 is the
+   skipped one (cancelled by action 2), all the others were started *)
+Example C30_witness_noraise :
+  forallb noraise ex_h = true /\
+  let lg := log (world_of (run_history (Cfg false) 0 ex_h)) in
+  flat_map (fun e => match e with ESkip _ id => [id] | _ => [] end) lg = [1%nat] /\
+  existsb (fun e => match e with ECancel 1 => true | _ => false end) lg = true /\
+  length (filter (fun e => match e with EStart _ _ _ _ _ _ _ _ => true | _ => false end) lg) = 4%nat /\
+  length (filter (fun e => match e with EEnq _ _ _ _ => true | _ => false end) lg) = 5%nat.
+Proof. vm_compute. repeat split; reflexivity. Qed.
